@@ -346,6 +346,28 @@ def write_lines(code):
     return r
 
 
+_code_branches = {}
+
+
+def branch_lines(code):
+    """Source lines of a code object that contain a conditional jump (an `if`, `while`, `and`/`or`,
+    conditional expression): the line executed right after one is where a check-then-act window opens."""
+    r = _code_branches.get(code)
+    if r is None:
+        r = set()
+        try:
+            cur = None
+            for ins in dis.get_instructions(code):
+                if ins.starts_line is not None:
+                    cur = ins.starts_line
+                if cur is not None and ('JUMP_IF' in ins.opname):
+                    r.add(cur)
+        except Exception:
+            pass
+        _code_branches[code] = r
+    return r
+
+
 class Sched(object):
     def __init__(self, programs, plan=None, first=0, pref=None, step_cap=300000,
                  athlib_dir=None, record=False, stall_s=2.5):
